@@ -79,6 +79,10 @@ class VariantAdapter(envcorr.Adapter):
     def batch_checker_cause(self, ctx, rows, batch_accepts):
         return ""
 
+    def checker_case_hook(self, ctx, inst, lab, sol, f):
+        """extra per-case consistency tests between Lean-side verdicts"""
+        return None
+
     def batched_reward_model(self, ctx, insts, actions):
         """rewards (ticks) predicted by a model of the BATCHED reward computation, if the family has one"""
         return None
@@ -264,6 +268,15 @@ class CvrptwAdapter(VariantAdapter):
                 and f.get("check") == "1" and f.get("checkx") == "0"):
             return "int-clock"
         return ""
+
+    def checker_case_hook(self, ctx, inst, lab, sol, f):
+        # theorem `checkG_repaired_iff`: on an instance passing its own static assertions the checker WITHOUT `.int()`
+        # and WITHOUT the row-0 read decides the Spec (up to the load tolerance); evaluated here on every case
+        if f.get("static") == "1" and f.get("near", "0") == "0" and "checkrep" in f:
+            ctx.count("cvrptw.repaired-checker-vs-spec")
+            if (f["checkrep"] == "1") != (f.get("feas") == "1"):
+                ctx.disagreement("cvrptw: repaired checker model (no .int(), no row-0 read) differs from the Spec oracle",
+                                 {"inst": inst, "label": lab, "actions": list(sol), "checkrep": f["checkrep"], "feas": f.get("feas")})
 
     def batch_checker_cause(self, ctx, rows, batch_accepts):
         # known defect: every row's static assertion is tested against the depot deadline of batch row 0.  It
@@ -745,13 +758,21 @@ def _T(mod, *items):
 P = "proved"
 THEOREMS = {
     # ---------------------------------------------------------------- CVRPTW
-    ("C01", "cvrptw"): _T("Rl4co.Props.C01.Cvrptw",
+    ("C01", "cvrptw"): _T(["Rl4co.Props.C01.Cvrptw", "Rl4co.Props.C01.VrpVariantsSpec", "Rl4co.Props.C02.VrpVariantsExists"],
+        ("Rl4co.Cvrptw.feasible_exists", P, "Spec sanity: every WF instance has a Spec-feasible solution (via a finished episode)"),
+        ("Rl4co.Spec.Cvrptw.feasible_mono", P, "Spec sanity: relaxing deadlines preserves feasibility"),
+        ("Rl4co.Spec.Cvrptw.infeasible_of_unreachable", P, "Spec sanity: deadlines bind — one customer whose deadline precedes the direct arrival: nothing is feasible"),
         ("Rl4co.Cvrptw.feasible_of_run", P, "cap ≥ 0, RetOK (from every customer the depot is reached in time after the latest "
          "admissible service start) ⇒ every finished mask-confined episode is Spec-feasible (visits, loads, windows, returns)"),
         ("Rl4co.Cvrptw.step_time", P, "the model's clock update has the shape max(t+d, start)+dur for a ≠ 0 — holds because of the "
          "extracted source shape (Params.cvrptwStepDurAfterMax, cvrptwStepDepotCmp)"),
         ("Rl4co.Cvrptw.run_base", P, "a CVRPTW run projects to a run of the embedded CVRP model (class inheritance as a theorem)")),
-    ("C02", "cvrptw"): _T(["Rl4co.Props.C02.Cvrptw", "Rl4co.Props.C02.CvrptwGen"],
+    ("C02", "cvrptw"): _T(["Rl4co.Props.C02.Cvrptw", "Rl4co.Props.C02.CvrptwGen", "Rl4co.Props.C02.CvrptwSolomon",
+                           "Rl4co.Props.C02.VrpVariantsExists"],
+        ("Rl4co.Cvrptw.exists_complete_run", P, "every WF instance has a finished mask-confined episode (model-level 'solvable')"),
+        ("Rl4co.Cvrptw.never_done_of_oversized", P, "a customer whose demand exceeds the reset state's capacity is never offered: no run finishes"),
+        ("Rl4co.Cvrptw.solomon_default_never_done", P, "extract_from_solomon (model `ofSolomon`) on an env whose generator capacity is below a raw demand: no episode finishes"),
+        ("Rl4co.Cvrptw.ofSolomon_wf", P, "with the generator carrying the instance's capacity a Solomon-conform instance is WF (C01/C02 apply, positive service times)"),
         ("Rl4co.Cvrptw.gen_wf_cvrptw", P, "windows built by the generator model (Gen.Cvrptw.window under Cond, C18 cvrptw_window) ⇒ WF"),
         ("Rl4co.Cvrptw.gen_mask_nonempty", P, "… hence every reachable state of a generated instance offers an action"),
         ("Rl4co.Cvrptw.gen_feasible_of_run", P, "… and finished mask-confined episodes on generated instances are feasible"),
@@ -768,7 +789,11 @@ THEOREMS = {
         ("Rl4co.Cvrptw.opt_reachable", P, "EVERY feasible solution (canonical or not) has a finished mask-confined episode of the same objective"),
         ("Rl4co.Cvrptw.best_through_mask_eq_optimum", P, "∃/∀ form: some finished episode attains −objective(opt), none exceeds it"),
         ("Rl4co.Cvrptw.run_of_feasible", P, "every canonical Spec-feasible solution (windows with ≤) is a finished mask-confined run")),
-    ("C06", "cvrptw"): _T("Rl4co.Props.C06.Cvrptw",
+    ("C06", "cvrptw"): _T(["Rl4co.Props.C06.Cvrptw", "Rl4co.Props.C06.CvrptwRepaired"],
+        ("Rl4co.Cvrptw.check_eq_checkG", P, "the modelled checker = checkG at the two switch values extracted from the source"),
+        ("Rl4co.Cvrptw.checkG_sound_repaired", P, "repaired clause: WITHOUT .int() acceptance ⇒ feasible (loads up to tol, windows exactly), all data"),
+        ("Rl4co.Cvrptw.checkG_complete_repaired", P, "repaired clause: WITHOUT the row-0 read feasible ⇒ accepted, whatever the batch's first row"),
+        ("Rl4co.Cvrptw.checkG_repaired_iff", P, "both repaired, tolerance 0: the checker decides the Spec exactly"),
         ("Rl4co.Cvrptw.check_complete", P, "static assertions hold ∧ Spec-feasible ⇒ checker accepts (the truncated clock never runs ahead)"),
         ("Rl4co.Cvrptw.check_sound_counterexample", P, "¬ check_sound_statement: arrival 13/8 at a deadline 12/8 is accepted (`.int()`)"),
         ("Rl4co.Cvrptw.checkStatic_boundary", P, "the static assertion admits equality and rejects one tick less (Params.cvrptwCheckStaticCmp)"),
@@ -776,14 +801,18 @@ THEOREMS = {
         ("Rl4co.Cvrptw.check_sound_partial", "partial", "on integral data (unit ∣ distances, window starts, durations) ∧ RetOK: accepted ⇒ "
          "feasible up to the load tolerance, windows exactly")),
     # ---------------------------------------------------------------- SDVRP
-    ("C01", "sdvrp"): _T("Rl4co.Props.C01.Sdvrp",
+    ("C01", "sdvrp"): _T(["Rl4co.Props.C01.Sdvrp", "Rl4co.Props.C01.VrpVariantsSpec", "Rl4co.Props.C02.VrpVariantsExists"],
+        ("Rl4co.Sdvrp.feasible_exists", P, "Spec sanity: cap > 0, demands ≥ 0 ⇒ a Spec-feasible solution exists"),
+        ("Rl4co.Spec.Sdvrp.demand_nonneg_of_feasible", P, "Spec sanity: a feasible split exists only for non-negative demands"),
+        ("Rl4co.Spec.Sdvrp.visited_of_feasible", P, "Spec sanity: a customer with positive demand must be visited"),
         ("Rl4co.Sdvrp.feasible_of_run", P, "cap ≥ 0, demands ≥ 0 (also > cap) ⇒ every finished mask-confined episode has a valid split"),
         ("Rl4co.Sdvrp.delivered_eq", P, "delivered = min(remaining, cap − used) — holds because of the extracted source shape "
          "(Params.sdvrpStepDeliverIsMin, sdvrpStepFreeIsCapMinusUsed)"),
         ("Rl4co.Sdvrp.step_used", P, "load update (used + delivered)·[a ≠ 0] (Params.sdvrpStepDepotCmp)"),
         ("Rl4co.Sdvrp.greedyFeasible_of_run", P, "… namely the greedy split the environment performs"),
         ("Rl4co.Spec.Sdvrp.feasible_of_greedy", P, "the executable oracle (greedy replay valid) implies the existential Spec")),
-    ("C02", "sdvrp"): _T("Rl4co.Props.C02.Sdvrp",
+    ("C02", "sdvrp"): _T(["Rl4co.Props.C02.Sdvrp", "Rl4co.Props.C02.VrpVariantsExists"],
+        ("Rl4co.Sdvrp.exists_complete_run", P, "cap > 0, demands ≥ 0 ⇒ a finished mask-confined episode exists"),
         ("Rl4co.Sdvrp.mask_nonempty", P, "every state offers an action"),
         ("Rl4co.Sdvrp.done_stable", P, "done is absorbing along reachable states"),
         ("Rl4co.Sdvrp.steps_le", P, "cap > 0, demands ≥ 0 ⇒ an unfinished mask-confined run has at most 2(n + ⌊Σdemand/cap⌋) + 1 steps")),
@@ -791,7 +820,9 @@ THEOREMS = {
         ("Rl4co.Sdvrp.reward_eq_objective", P, "reward = −(sum of closed route lengths) for every action list when D 0 0 = 0")),
     ("C04", "sdvrp"): _T("Rl4co.Props.C04.Sdvrp",
         ("Rl4co.Sdvrp.pad_noop", P, "a depot padding step of a finished reachable state changes neither done, mask, remaining demands nor reward")),
-    ("C05", "sdvrp"): _T(["Rl4co.Props.C05.Sdvrp", "Rl4co.Props.C05.SdvrpClass"],
+    ("C05", "sdvrp"): _T(["Rl4co.Props.C05.Sdvrp", "Rl4co.Props.C05.SdvrpClass", "Rl4co.Props.C05.SdvrpSplit"],
+        ("Rl4co.Sdvrp.saturating_iff_greedy", P, "a split is saturating (every visit completes the customer or fills the vehicle) iff its amounts are the greedy ones"),
+        ("Rl4co.Sdvrp.split_reachable_iff", P, "among the valid splits of the Spec the mask reaches exactly the saturating ones in canonical shape (iff)"),
         ("Rl4co.Sdvrp.complete_iff", P, "finished runs of the decoding loop = exactly the non-empty greedy-feasible canonical visit "
          "sequences ending with a customer (iff)"),
         ("Rl4co.Sdvrp.best_through_mask_eq_greedy_optimum", P, "∃/∀ form of: best reward through the mask = −min objective over that class"),
@@ -804,13 +835,17 @@ THEOREMS = {
         ("Rl4co.Sdvrp.check_rejects_double_depot", P, "a feasible solution with an empty route in the middle is rejected"),
         ("Rl4co.Sdvrp.check_rejects_nongreedy", P, "a sequence feasible only with a non-greedy split is rejected")),
     # ---------------------------------------------------------------- SVRP
-    ("C01", "svrp"): _T("Rl4co.Props.C01.Svrp",
+    ("C01", "svrp"): _T(["Rl4co.Props.C01.Svrp", "Rl4co.Props.C01.VrpVariantsSpec", "Rl4co.Props.C02.VrpVariantsExists"],
+        ("Rl4co.Svrp.feasible_exists", P, "Spec sanity: every WF instance has a Spec-feasible solution"),
+        ("Rl4co.Spec.Svrp.feasible_mono", P, "Spec sanity: raising technician levels preserves feasibility"),
         ("Rl4co.Svrp.mask_eq", P, "the model's mask has the reference shape (last technician ⇔ tech == T − 1) — holds because of the "
          "extracted Params.svrpMaskLastCmp / svrpMaskLastOffset"),
         ("Rl4co.Svrp.step_eq", P, "the model's step increments the technician exactly on depot visits (Params.svrpStepDepotCmp)"),
         ("Rl4co.Svrp.feasible_of_run", P, "WF (T ≥ 1, last technician covers every customer) ⇒ every finished mask-confined episode is "
          "Spec-feasible (once each; route k by technician k < T with sufficient level)")),
-    ("C02", "svrp"): _T(["Rl4co.Props.C02.Svrp", "Rl4co.Props.C02.SvrpGen"],
+    ("C02", "svrp"): _T(["Rl4co.Props.C02.Svrp", "Rl4co.Props.C02.SvrpGen", "Rl4co.Props.C02.VrpVariantsExists"],
+        ("Rl4co.Svrp.exists_complete_run", P, "every WF instance has a finished mask-confined episode"),
+        ("Rl4co.Svrp.two_n_plus_one_fails", P, "the text's generic bound 2n+1 is false for SVRP with > n+2 technicians: n = 1, T = 4, the only episode [0,0,0,1] has 4 steps"),
         ("Rl4co.Svrp.gen_wf_svrp", P, "generator post-condition (C18 svrp_skill_le_best: skill = max(techs)·u ≤ best level = last level) ⇒ WF"),
         ("Rl4co.Svrp.gen_steps_le", P, "… hence the step bound on generated instances"),
         ("Rl4co.Svrp.gen_tech_lt", P, "… and no technician-index overflow inside a batch loop on generated instances"),
@@ -821,7 +856,8 @@ THEOREMS = {
         ("Rl4co.Svrp.tech_lt_of_run", P, "WF ⇒ along any mask-confined run of ≤ n+T−1 steps (padding included) current_tech < T: "
          "no index overflow inside a batch loop"),
         ("Rl4co.Svrp.single_technician_overflow", P, "T = 1: every finished episode ends in a state whose mask computation indexes techs[1]")),
-    ("C03", "svrp"): _T(["Rl4co.Props.C03.Svrp", "Rl4co.Props.C03.SvrpBatch"],
+    ("C03", "svrp"): _T(["Rl4co.Props.C03.Svrp", "Rl4co.Props.C03.SvrpBatch", "Rl4co.Props.C01.VrpVariantsSpec"],
+        ("Rl4co.Spec.Svrp.objective_const_costs", P, "Spec sanity: with equal cost factors the objective is that factor times the total route length"),
         ("Rl4co.Svrp.costsBatch_eq_costRow", P, "the cost table built by the BATCHED Python loop (flat loop over nonzero(actions == 0), "
          "both flush statements as extracted) equals, row by row, the per-instance cost row — any batch size / composition"),
         ("Rl4co.Svrp.reward_eq_objective", P, "reward = −Σ_k cost_k · closed length of route k, for every action list when D 0 0 = 0")),
@@ -1048,6 +1084,139 @@ def svrp_generator_stream(ctx, what: str):
                         "spec_feasible": f.get("feas"), "reward": real[r]}, cap=5)
 
 
+# =================================================================================================
+# loaded streams: instances that reach the env through its documented loaders
+# =================================================================================================
+class _PreReset:
+    """env wrapper whose `reset` returns an already prepared reset state (used for `extract_from_solomon`, which
+    resets internally)"""
+
+    def __init__(self, env, td):
+        self.env, self.td = env, td
+
+    def reset(self, td):
+        return self.td
+
+    def step(self, td):
+        return self.env.step(td)
+
+
+def _episode_rows(ctx, ad, what, insts, ep, tag):
+    """model trace + Spec verdict for the rows of one loaded episode (C01), termination facts (C02)"""
+    B = len(insts)
+    lines = [ad.line("episode", insts[r], ep.actions[r]) for r in range(B)]
+    replies = vc.ask(ctx, lines)
+    for r in range(B):
+        f = envcorr.compare_trace(ctx, ad, insts[r], ep.actions[r], ep.masks[r], ep.done[r], replies[r], f"{what} {tag}")
+        ctx.case((ad.name, tag, repr(insts[r]), tuple(ep.actions[r])))
+        ctx.count(f"{ad.name}.{tag}.rows")
+        if what == "C01" and f.get("feas") == "0" and not ep.empty_mask_rows:
+            vc.viol(ctx, f"{ad.name}:infeasible-episode:{tag}",
+                    "mask-confined episode on a LOADED instance is infeasible by the Lean Spec (judged on the file's own data)",
+                    {"inst": insts[r], "actions": ep.actions[r], "lean_line": lines[r]})
+        if what == "C02":
+            d = ep.done[r]
+            fd = d.index(1) if 1 in d else None
+            bound = ad.step_bound(insts[r])
+            if fd is None or fd > bound:
+                vc.viol(ctx, f"{ad.name}:step-bound:{tag}", f"row needed {fd} steps, bound is {bound}",
+                        {"inst": insts[r], "actions": ep.actions[r]})
+        ctx.sample({"env": ad.name, "stream": tag, "inst": insts[r], "actions": ep.actions[r],
+                    "spec_feasible": f.get("feas")}, cap=5)
+    if what == "C02":
+        for (r, t) in ep.empty_mask_rows:
+            vc.viol(ctx, f"{ad.name}:dead-end:{tag}", "a row is offered no action while the batch is running",
+                    {"inst": insts[r], "actions": ep.actions[r], "step": t})
+
+
+def sdvrp_loaded_stream(ctx, what: str):
+    """`CVRPEnv.load_data` (inherited by SDVRPEnv) is the documented way to feed dataset files: raw integer demands
+    plus a per-instance `capacity` column, normalised on loading.  Files whose instances have DIFFERENT capacities
+    (merged datasets) are written with numpy, loaded through `SDVRPEnv.load_data`, driven through the mask and
+    judged by the Lean Spec on the file's own data (demand_j / capacity of that instance)."""
+    import numpy as np
+    import tempfile
+
+    from rl4co.envs.routing.sdvrp.env import SDVRPEnv
+
+    ad = SD
+    env = ad.env_for({})
+    for g in range(ctx.budget(12, 100)):
+        n = ctx.rng.choice([2, 3, 5, 8, 20])
+        B = ctx.rng.choice([2, 3, 4, 6])
+        insts = [ad.gen_instance(ctx.rng, n, ctx.rng.choice(ad.kinds())) for _ in range(B)]
+        caps = [16, 4, 8, 32]
+        for r, inst in enumerate(insts):  # distinct capacities inside one file; keep the demand/capacity ratios dyadic
+            k = caps[(r + g) % len(caps)]
+            inst["demand"] = [max(1, d * k // inst["C"]) for d in inst["demand"]]
+            inst["C"] = k
+        td = ad.to_td(insts)
+        with tempfile.TemporaryDirectory(prefix="sdvrp_load_") as tmp:
+            path = os.path.join(tmp, "data.npz")
+            np.savez(path, locs=td["locs"].numpy(), depot=td["depot"].numpy(),
+                     demand=np.array([i["demand"] for i in insts], dtype=np.float32),
+                     capacity=np.array([i["C"] for i in insts], dtype=np.float32))
+            td0 = SDVRPEnv.load_data(path)
+        ctx.count("sdvrp.loaded.files")
+        try:
+            ep = rl.run_episode(env, td0, envcorr.uniform_chooser(ctx.rng), max_steps=40 * (n + 2) + 50)
+        except RuntimeError as e:
+            if what == "C02":
+                vc.viol(ctx, "sdvrp:no-termination:loaded", f"real env: {e}", {"insts": insts})
+            continue
+        _episode_rows(ctx, ad, what, insts, ep, "loaded")
+
+
+def cvrptw_solomon_stream(ctx, what: str):
+    """`CVRPTWEnv.extract_from_solomon` is the documented way to feed Solomon-format instances: integer coordinates,
+    raw demands with a capacity, integer time windows and POSITIVE service times.  Instances of that shape are built
+    on integral point sets, passed through `extract_from_solomon` of an env whose generator carries the instance's
+    capacity, driven through the mask and judged by the Lean Spec.  With the default env (`vehicle_capacity` = 1.0)
+    the loader leaves the raw demands against capacity 1.0 (it stores the capacity in an attribute nobody reads)."""
+    import numpy as np
+
+    from rl4co.envs.routing.cvrptw.env import CVRPTWEnv
+
+    ad = TW
+    for g in range(ctx.budget(12, 100)):
+        n = ctx.rng.choice([2, 3, 5, 8, 20])
+        inst = ad.gen_instance(ctx.rng, n, "integral")
+        inst["dur"] = [0] + [max(1, v) for v in inst["dur"][1:]]  # Solomon instances have positive service times
+        D = geom.dist_matrix(inst["pts"])
+        inst["twE"][0] = max([1] + [inst["twE"][j] + inst["dur"][j] + D[j][0] for j in range(1, n + 1)]) + ctx.rng.choice([0, 5])
+        inst["twS"][0], inst["dur"][0] = 0, 0
+        C = inst["C"]
+        inst["Q"] = float(C)  # raw demands against the raw capacity
+        sol = {"node_coord": np.array(inst["pts"], dtype=np.float64), "demand": np.array([0] + inst["demand"]),
+               "capacity": C, "service_time": np.array(inst["dur"]),
+               "time_window": np.array(list(zip(inst["twS"], inst["twE"])))}
+        inst["kind"] = "solomon"
+        env = CVRPTWEnv(generator_params=dict(num_loc=n, vehicle_capacity=float(C)), check_solution=False)
+        td = env.extract_from_solomon(sol, batch_size=1)
+        ctx.count("cvrptw.solomon.instances")
+        try:
+            ep = rl.run_episode(_PreReset(env, td), td, envcorr.uniform_chooser(ctx.rng), max_steps=40 * (n + 2) + 50)
+        except RuntimeError as e:
+            if what == "C02":
+                vc.viol(ctx, "cvrptw:no-termination:solomon", f"real env: {e}", {"inst": inst})
+            continue
+        _episode_rows(ctx, ad, what, [inst], ep, "solomon")
+        if what == "C02" and g < 3:
+            # the same instance through an env left at its default capacity
+            env1 = CVRPTWEnv(generator_params=dict(num_loc=n), check_solution=False)
+            td1 = env1.extract_from_solomon(sol, batch_size=1)
+            try:
+                rl.run_episode(_PreReset(env1, td1), td1, envcorr.uniform_chooser(ctx.rng), max_steps=10 * (n + 2))
+            except RuntimeError as e:
+                i1 = dict(inst, Q=1.0, C=1, kind="solomon/default-env")
+                # explained by the ignored capacity iff some raw demand exceeds the capacity 1.0 the env uses
+                # (Lean: Rl4co.Cvrptw.never_done_of_oversized)
+                known = max(inst["demand"]) > 1
+                vc.viol(ctx, "cvrptw:no-termination:solomon-capacity-ignored" if known else "cvrptw:no-termination:solomon",
+                        "extract_from_solomon on an env with the default vehicle_capacity: raw demands exceed capacity 1.0, only the "
+                        "depot is ever offered and the episode never finishes", {"inst": i1, "error": str(e)[:120]})
+
+
 # ---- family-specific extra probes ----------------------------------------------------------------
 def svrp_single_technician_probe(ctx):
     """C02 on the configuration `tech_costs` of length 1 (one technician): the episode's last step (return
@@ -1147,6 +1316,7 @@ def svrp_termination(ctx):
 
 
 GEN_STREAM = {"cvrptw": cvrptw_generator_stream, "svrp": svrp_generator_stream}
+LOADED_STREAM = {"sdvrp": sdvrp_loaded_stream, "cvrptw": cvrptw_solomon_stream}
 
 
 def _with_stream(fam, prop, base):
@@ -1154,6 +1324,8 @@ def _with_stream(fam, prop, base):
         base(ctx)
         if fam in GEN_STREAM:
             GEN_STREAM[fam](ctx, prop)
+        if prop in ("C01", "C02") and fam in LOADED_STREAM:
+            LOADED_STREAM[fam](ctx, prop)
     return run
 
 
